@@ -57,6 +57,21 @@ def row_line(cid, r):
             steps = list(r["pre"]) + [r["step"]]
             return "GDECL %s %d %d %s" % (cid, 0 if r["exp"] == "unspec" else 1, len(steps),
                                           " ".join("%s %s %s" % (s["n"], s["t"], s["hr"]) for s in steps))
+        if r["what"] == "gfn":
+            def gtok(o):
+                if o["k"] == "reg":
+                    return "rn:" + o["kind"][2:] if o["kind"].startswith("v:") else "r:" + o["kind"][2:]
+                if o["k"] == "mem":
+                    _, b, x = o["kind"].split(":")
+                    return "memn:%s:%s:%s:%d" % (o["t"], b, x, o["d"])
+                return o["k"]
+            L = ["GFN", cid, "0" if r["exp"] == "unspec" else "1", "1" if r["exec"] and r["exp"] == "ok" else "0", str(len(r["decls"]))]
+            for d in r["decls"]:
+                L += [d["n"], d["t"], d["hr"]]
+            L += ["NI", str(len(r["insns"]))]
+            for ins in r["insns"]:
+                L += ["INS", ins["op"], str(len(ins["ops"]))] + [gtok(o) for o in ins["ops"]]
+            return " ".join(L)
         if r["what"] == "reg":
             pre = " ".join("%s %s" % (p["n"], p["t"]) for p in r["pre"])
             return "DREG %s %d %s %s %s" % (cid, len(r["pre"]), pre, r["name"], r["t"])
@@ -259,6 +274,17 @@ def judge(exp, res, _plain=False):
         return ("crash", "no result from the harness")
     if exp.get("what") == "greg" and not _plain:
         return judge_gdecl(exp, res)
+    if exp.get("what") == "gfn" and not _plain:
+        # the declarations come first; one that MIR.md leaves open (a second name for a tied hard register)
+        # and the code rejects ends the row, a well-formed one must be accepted
+        for i, pe in enumerate(exp["preexp"]):
+            if i >= len(res["steps"]):
+                return ("crash", "the library died (%s) in declaration %d" % (res["crash"], i + 1))
+            if res["steps"][i][0] != "ACCEPT":
+                if pe == "unspec":
+                    return None
+                return ("reject", "declaration %s rejected (%s_error), MIR.md allows it" % (exp["decls"][i], res["steps"][i][1]))
+        return judge(exp, res, _plain=True)
     b = res["stages"].get("build")
     if res["crash"] and b is None:
         return ("crash", "the library died (signal/exit %s) while the row was built" % res["crash"])
